@@ -10,6 +10,7 @@ import (
 
 	"github.com/uhppoted/uhppote-core/messages"
 	"github.com/uhppoted/uhppote-core/types"
+	"github.com/uhppoted/uhppote-core/uhppote"
 
 	"verif/harness/internal/cases"
 	"verif/harness/internal/rng"
@@ -275,6 +276,15 @@ func streamDiscover(c *ctx) {
 			cls = append(cls, cl)
 		}
 		u, d := newClient(g.devices, g.broadcast)
+		// what DeviceList hands out is the caller's to edit: the names discovery reports are those the client was built with
+		if n%2 == 1 {
+			dl := u.DeviceList()
+			for k, v := range dl {
+				v.Name = v.Name + " (edited)"
+				dl[k] = v
+			}
+			dl[4000000001] = uhppote.Device{Name: "added", DeviceID: 4000000001}
+		}
 		d.Datagrams = dgs
 		out := guard(func() string {
 			devs, err := u.GetDevices()
@@ -302,5 +312,5 @@ func streamDiscover(c *ctx) {
 		c.w.Emit("discover "+strings.Join(g.toks, " ")+" | "+strings.Join(hx, " "), out,
 			append([]string{fmt.Sprintf("discover/replies%d", k)}, prefixAll("class/", cls)...)...)
 	}
-	c.w.Notes = append(c.w.Notes, "discover stream: GetDevices through the hooked driver with 0..7 collected datagrams over the classes valid / duplicate / short / long / wrong protocol id / 0x19 / wrong code / non-BCD date / impossible date / random mutation, from up to 4 controllers in random order, with and without configured names and broadcast port")
+	c.w.Notes = append(c.w.Notes, "discover stream: GetDevices through the hooked driver with 0..7 collected datagrams over the classes valid / duplicate / short / long / wrong protocol id / 0x19 / wrong code / non-BCD date / impossible date / random mutation, from up to 4 controllers in random order, with and without configured names and broadcast port; every second run after the map returned by DeviceList was edited")
 }
